@@ -148,7 +148,9 @@ def _picks(rng):
     return [rng.randrange(6) for _ in range(rng.randint(1, 24))]
 
 
-def gen_random_put(rng):
+def gen_random_put(rng, big_ok=False):
+    """big_ok: PutHR may be called with a declared size <= 0 or == BLOCKSIZE, which makes it
+    allocate a 64 MiB buffer (kept rare: it dominates the run time otherwise)"""
     odd = rng.random() < 0.15
     nw = rng.choice([1, 2, 3, 3, 4, 5]) if not odd or rng.random() < 0.7 else 0
     nro = rng.choice([0, 0, 1, 2])
@@ -157,7 +159,7 @@ def gen_random_put(rng):
     retries = rng.choice([0, 1, 2, 2, 3])
     data = bytes(rng.getrandbits(8) for _ in range(rng.choice([0, 1, 3, 3, 17, 40])))
     md5 = hashlib.md5(data).hexdigest()
-    r = rng.random()
+    r = 0.3 if big_ok else rng.random()
     entry, h = "raw", md5
     if r < 0.12:
         entry = "puthb"
@@ -168,15 +170,20 @@ def gen_random_put(rng):
         h = "-"
     elif r < 0.38:
         q = rng.random()
+        if not data:
+            data = bytes(rng.getrandbits(8) for _ in range(rng.choice([1, 3, 17])))
+            md5 = h = hashlib.md5(data).hexdigest()
         n = len(data)
         if q < 0.15:
             n = rng.choice([BLOCKSIZE + 1, BLOCKSIZE + 12345, 1 << 40])
-        elif q < 0.2:
-            n = BLOCKSIZE  # largest accepted value; the data is shorter, so the transport fails
         elif q < 0.3:
-            n = rng.choice([max(0, len(data) - 1), len(data) + 1])
-        elif q < 0.35:
-            n = 0
+            n = rng.choice([max(1, len(data) - 1), len(data) + 1])
+        if big_ok:
+            # largest accepted value (the data is shorter, so the transport fails) / size unknown
+            n = rng.choice([BLOCKSIZE, 0, 0, -1])
+            if n <= 0 and rng.random() < 0.5:
+                data = b""
+                md5 = h = hashlib.md5(data).hexdigest()
         if rng.random() < 0.2:
             h = "%032x" % rng.getrandbits(128)
         entry = f"puthr:{n}"
@@ -293,12 +300,12 @@ def generate(rng, tier):
     cases = []
     if tier == "quick":
         cases += gen_exhaustive(rng, 2, 1)
-        cases += [gen_random_put(rng) for _ in range(3000)]
+        cases += [gen_random_put(rng, i % 300 == 7) for i in range(3000)]
         cases += [gen_upl(rng) for _ in range(600)]
         cases += [gen_load(rng) for _ in range(300)]
     else:
-        cases += gen_exhaustive(rng, 3, 2, sample=0.35)
-        cases += [gen_random_put(rng) for _ in range(60000)]
+        cases += gen_exhaustive(rng, 3, 2, sample=0.25)
+        cases += [gen_random_put(rng, i % 500 == 7) for i in range(40000)]
         cases += [gen_upl(rng) for _ in range(6000)]
         cases += [gen_load(rng) for _ in range(3000)]
     return cases
